@@ -1,11 +1,11 @@
 (* C08 - Library views stay consistent under any history of add / remove / replace.
    Only statements here; every proof is `exact <lemma>` (Proofs/LibraryProofs.v). *)
-From Coq Require Import List NArith ZArith.
+From Coq Require Import List NArith ZArith String.
 From BP Require Import Base.Chars Model.Blocks Model.Entry Model.Library Spec.C08 Proofs.LibraryProofs.
 Import ListNotations.
 
 (* after ANY finite history of add (single, list, fail_on_duplicate_key), remove, replace (both modes) with ANY
-   arguments, raising calls included: entries are the Entry blocks in block order, the two dict views map exactly the
+   arguments, raising calls included: entries / strings are the Entry / String blocks in block order, the two dict views map exactly the
    keys of the held entries/strings to those objects, no two held entries (strings) share a key, the five class views
    partition blocks - and the only exception ever raised is ValueError (the KeyError / AssertionError sites of
    remove and _cast_to_duplicate are unreachable).  Induction over the history. *)
@@ -33,8 +33,8 @@ Theorem C08_order : forall l, reachable l ->
 Proof. exact order. Qed.
 Print Assumptions C08_order.
 
-(* a call that raises ValueError leaves the library equal (Python ==, on blocks and on both dict views) to what it
-   was - except add(..., fail_on_duplicate_key=True), finding K1.  Covers remove of a missing block (nothing is
+(* a call that raises ValueError leaves the library equal (Python ==, on ALL EIGHT views: the six list views in
+   order, the two dict views as mappings) to what it was - except add(..., fail_on_duplicate_key=True), finding K1.  Covers remove of a missing block (nothing is
    touched, also for lists: finding F11 repaired), replace of a missing block, and the rollback of replace, which
    re-inserts the CALLER's block: equal, not necessarily identical, to the one that was held *)
 Theorem C08_raise_atomic_except_known : forall l o, reachable l -> ~ known_K1 o ->
@@ -48,13 +48,14 @@ Theorem C08_raise_atomic_refuted : exists l o, reachable l /\ op_wf l o /\ snd (
 Proof. exact atomic_refuted. Qed.
 Print Assumptions C08_raise_atomic_refuted.
 
-(* observed while proving atomicity: `strings` is list(dict.values()), and the rollback of a raising replace
-   re-inserts the old string at the end of that dict, so the LIST view `strings` comes back reordered although
-   blocks and strings_dict (as a mapping) are as before *)
-Theorem C08_strings_order_refuted : exists l o, reachable l /\ op_wf l o /\ ~ known_K1 o
-  /\ snd (apply l o) = Raised EValue /\ ~ Forall2 ob_eq (v_strings l) (v_strings (fst (apply l o))).
-Proof. exact strings_order_refuted. Qed.
-Print Assumptions C08_strings_order_refuted.
+(* strings (like entries) is always the String blocks of blocks in that order, and no raising call other than K1
+   changes it.  (Before /repo commit c532558 `strings` was list(dict.values()) and the rollback of a raising replace
+   returned it reordered: then proved here as C08_strings_order_refuted, now repaired.) *)
+Theorem C08_strings_order : forall l, reachable l ->
+  v_strings l = filter is_string_ob (blocks l)
+  /\ forall o, ~ known_K1 o -> snd (apply l o) = Raised EValue -> list_equal (v_strings l) (v_strings (fst (apply l o))).
+Proof. exact strings_order. Qed.
+Print Assumptions C08_strings_order.
 
 (* ---- non-vacuity: a reachable library holding a duplicate wrapper; replace(twin of the held entry, an entry whose
    key is taken) raises and is rolled back: the caller's twin (object 7) now stands where object 0 stood *)
@@ -62,3 +63,11 @@ Example C08_example_rollback :
   reachable w_lib3 /\ ~ known_K1 w_op3 /\ snd (apply w_lib3 w_op3) = Raised EValue
   /\ map oid_of (blocks w_lib3) = [0; 1000; 2]%N /\ map oid_of (blocks (fst (apply w_lib3 w_op3))) = [7; 1000; 2]%N.
 Proof. exact example_rollback. Qed.
+
+(* the witness of the former strings-order finding: replace(String a, a String whose key b is taken) raises; the
+   string index is now in the order b, a, but `strings` is unchanged *)
+Example C08_example_strings_order :
+  reachable w_lib2 /\ ~ known_K1 w_op2 /\ snd (apply w_lib2 w_op2) = Raised EValue
+  /\ map fst (v_strings_dict (fst (apply w_lib2 w_op2))) = [lit "b"%string; lit "a"%string]
+  /\ map oid_of (v_strings w_lib2) = [0; 1]%N /\ map oid_of (v_strings (fst (apply w_lib2 w_op2))) = [0; 1]%N.
+Proof. exact example_strings_order. Qed.
